@@ -73,7 +73,7 @@ impl<K: OneRttKey> KeySet<K> {
 
     /// Rotating the phase will switch the active key
     fn rotate_phase(&mut self) {
-        self.generation += 1;
+        self.generation = self.generation.wrapping_add(1);
         self.key_phase = KeyPhase::next_phase(self.key_phase);
     }
 
